@@ -98,6 +98,28 @@ CHECKS = {
         note='trusted: uniform contents abstraction (no length-changing path depends on element values); long containers are sampled '
              'at both ends when walking for nested containers',
         design='4/C03'),
+    'C19': dict(
+        engine='E5',
+        technique='stateless exhaustive exploration of the answers of the random source (owned through a seam: scripted random.Random '
+                  'subclass), horizon-bounded; range / membership / permutation oracle on every execution',
+        text='The random source of the builtins is replaced from outside by a scripted source; for rand(), rand(a, b) over all '
+             '-3 <= a <= b <= 4 and wide / 29-digit / 64-bit ranges in every numeric representation, rand(list) and shuffle(list) for all '
+             'short lists, EVERY answer sequence of the source (all 2^k getrandbits answers for small k, boundary answers above, '
+             'boundary floats) up to the horizon is executed; results must be in range / an element / a fresh permutation, and every '
+             'value / element / permutation must be reachable.',
+        note='trusted: CPython random.py derives randint/choice/shuffle from getrandbits()/random() of the source object',
+        design='4/C19'),
+    'C08': dict(
+        engine='E2',
+        technique='exhaustive enumeration of literal pairs / triples / builtin applications; real eval vs exact rational reference '
+                  '(integer round-half-even to 28 digits)',
+        text='Over a literal alphabet that includes every short decimal form and 27-30 digit tie-probing literals: every literal, all '
+             'ordered pairs under + - * / and six comparisons, all triples of a subset under all operator pairs and tree shapes with '
+             'unary minus, and floor/ceil/int/abs/round/min/max/sum on literals, negations, sums and quotients are evaluated and compared '
+             'with Fraction arithmetic rounded half-even to 28 digits; failing arithmetic is run first in every task to expose leaked '
+             'decimal-context state. Complete within the alphabets.',
+        note='trusted: mc/model/exactnum.py (cross-checked against decimal on 900 operand pairs during development)',
+        design='4/C08'),
 }
 
 NOT_YET = {}
